@@ -290,9 +290,10 @@ impl ColumnParsing {
                                         5 => { second = value_u32 }
                                         6 => {
                                             let factor = if column.options.microseconds { 1 } else { 1000 };
+                                            // The fraction is less than a second (chrono would read more as a leap second)
                                             microsecond = match value_u32.checked_mul(factor) {
-                                                Some(microsecond) => microsecond,
-                                                None => { return column.default_value(); }
+                                                Some(microsecond) if microsecond < 1_000_000 => microsecond,
+                                                _ => { return column.default_value(); }
                                             };
                                         }
                                         _ => {}
